@@ -330,3 +330,101 @@ def lookup_shape(prog, f):
     if "HashMap::get(&*arg:self.values" not in ret.replace("**", "*"):
         return "the own entry is not what a hit returns: %s" % ret[:100]
     return None
+
+
+_ADD_FN = r"(<impl tsg::ast::(Variable|ScopedVariable|UnscopedVariable)>::(add|add_lazy|check_add)|variables::MutVariables(<[^>]*>)?>?::add)$"
+
+
+def mutability_flags(prog, rep, rule="E5.mut"):
+    """the mutability a declaration hands to the variable layer: `var` declares mutable, everything else (let, node, loop
+    variables, shorthand parameters, globals) immutable; the dispatchers pass the flag on unchanged — in the checker and in
+    both interpreters alike (the checker rejects `set` on a `let` local, the interpreters on a `let` scoped variable)"""
+    rep.rule(rule, "declarations pass `mutable = true` exactly for `var`; every other definition is immutable; dispatchers forward the flag unchanged (checker, strict, lazy)")
+    n = 0
+    for f in sorted(prog.fns.values(), key=lambda x: x.id):
+        if f.body is None or f.crate.prefix != "tsg" or f.file == "src/variables.rs":
+            continue
+        tr = None
+        k = 0
+        for b, t in f.body.calls():
+            d = callee_fn(t).get("rdef") or callee_fn(t)["def"]
+            d2 = callee_fn(t)["def"]
+            if not (re.search(_ADD_FN, d) or re.search(_ADD_FN, d2)):
+                continue
+            if len(t["args"]) < 3:
+                continue
+            tr = tr or Tracer(f.body)
+            flag = canon(strip(tr.operand(t["args"][-1])))
+            n += 1
+            k += 1
+            owner = (f.self_path or "").rsplit("::", 1)[-1]
+            if f.name in ("add", "add_lazy", "check_add") and owner in ("Variable", "ScopedVariable", "UnscopedVariable"):
+                want = "arg:mutable"
+            elif owner == "DeclareMutable":
+                want = "true"
+            else:
+                want = "false"
+            rep.check(flag.lstrip("*") == want, rule, "%s :: %s #%d" % (f.id, d2.rsplit("::", 1)[-1], k), sp_str(t["sp"]), "mutable = %s" % want,
+                      "%s defines a variable with mutable = %s (expected %s): `let`/`var` no longer mean what the reference says" % (f.name, flag, want))
+    rep.floor(rule, n, 30, "variable definitions with a mutability flag")
+    return n
+
+
+def file_tables_grow_only(prog, rep, rule="E5.file"):
+    """the declaration tables of a loaded file (globals, inherited variables) only grow, one declaration at a time, in the
+    parser's top-level loop: an assignment, removal or clear would make earlier declarations disappear"""
+    rep.rule(rule, "File.globals / File.inherited_variables are only appended to by parse_into_file (never assigned as a whole, cleared or removed from)")
+    n = 0
+    n += check_writers(prog, rep, rule, "tsg::ast::File", "inherited_variables", {("parse_into_file", "insert")}, "every `inherit` declaration adds to the set")
+    n += check_writers(prog, rep, rule, "tsg::ast::File", "globals", {("parse_into_file", "push")}, "every `global` declaration is appended")
+    rep.floor(rule, n, 2, "writers of the file's declaration tables")
+    return n
+
+
+# calls that drop, merge or reorder the elements of a collection
+_SHRINK = (r"Vec::<T, A>::(remove|swap_remove|truncate|clear|pop|drain|retain|retain_mut|split_off|dedup\w*)$",
+           r"VecDeque::<T, A>::(remove|truncate|clear|pop_\w+|drain|retain\w*)$",
+           r"HashMap::<K, V, S, A>::(remove|remove_entry|clear|retain|drain)$", r"HashSet::<T, S, A>::(remove|clear|retain|drain|take)$",
+           r"<impl \[T\]>::(sort\w*|reverse|rotate\w*|swap)$", r"variables::VariableMap::<'a, V>::clear$", r"variables::Globals::<'a>::(clear|remove)$")
+
+# (owner type or fn, operation) -> why it is fine; confirmed by reading each site on the pinned tree
+SHRINK_OK = {
+    ("ForIn", "clear"): "loop locals are reset at the start of every iteration",
+    ("ListComprehension", "clear"): "loop locals are reset at the start of every iteration",
+    ("SetComprehension", "clear"): "loop locals are reset at the start of every iteration",
+    ("Stanza", "clear"): "stanza locals are reset for every match",
+    ("Scan", "clear"): "the candidate list of the scan loop is rebuilt for every position",
+    ("Scan", "sort_by_key"): "scan candidates are ordered by (start, arm index) — rule F4",
+    ("Call", "drain"): "function parameters of the finished call are removed from the shared parameter stack",
+    ("LazyCall", "drain"): "function parameters of the finished call are removed from the shared parameter stack",
+    ("LazyScopedVariables", "sort_by"): "scoped definitions are forced in a deterministic order (E4)",
+}
+
+
+def no_dropped_elements(prog, rep, rule="E5.keep", files=("src/execution.rs", "src/execution/strict.rs", "src/execution/lazy.rs", "src/execution/lazy/statements.rs",
+                                                          "src/execution/lazy/store.rs", "src/execution/lazy/values.rs")):
+    """the interpreters never remove, merge (dedup) or reorder elements of the collections they work on — statements, attribute
+    lists, values, deferred work — except at the listed sites; a filtered or de-duplicated list silently skips work"""
+    rep.rule(rule, "no element-dropping, de-duplicating or reordering call (remove/clear/truncate/pop/drain/retain/dedup/sort/reverse) in the interpreters outside the listed, reasoned sites")
+    n = 0
+    for f in sorted(prog.shape_fns(), key=lambda x: x.id):
+        if f.body is None or f.file not in files:
+            continue
+        owner = (f.self_path or "").rsplit("::", 1)[-1]
+        if f.kind == "closure" and f.parent in prog.fns:
+            owner = (prog.fns[f.parent].self_path or "").rsplit("::", 1)[-1]
+        k = {}
+        for b, t in f.body.calls():
+            if not is_callee(t, *_SHRINK):
+                continue
+            n += 1
+            op = callee_fn(t)["def"].rsplit("::", 1)[-1]
+            k[op] = k.get(op, 0) + 1
+            why = SHRINK_OK.get((owner, op))
+            key = "%s :: %s #%d" % (f.id, op, k[op])
+            if why:
+                rep.ok(rule, key, sp_str(t["sp"]), why)
+            else:
+                rep.violation(rule, key, sp_str(t["sp"]), "%s on a collection of the interpreter in %s: elements (statements, attributes, values, deferred work) can be dropped, merged or reordered" % (op, f.id))
+    rep.floor(rule, n, 14, "element-dropping / reordering calls in the interpreters")
+    return n
